@@ -9,7 +9,7 @@ def tasks(tier, seed):
     cfg = [("linear", 2, 2, 2, 2, 1), ("sparse_linear", 2, 1, 3, 2, 1), ("mlp", 2, 2, 2, 2, 1), ("sparse_mlp", 2, 2, 2, 2, 1),
            ("douglas", 2, 1, 2, 2, 1), ("douglas", 2, 2, 2, 2, 1), ("douglas", 2, 1, 2, 2, 2)]
     if tier == "thorough":
-        cfg += [("linear", 3, 2, 3, 2, 1), ("mlp", 3, 2, 2, 2, 1), ("mlp", 2, 2, 3, 3, 1), ("sparse_mlp", 3, 1, 3, 2, 1),
+        cfg += [("linear", 3, 2, 3, 2, 1), ("mlp", 3, 2, 2, 2, 1), ("mlp", 2, 2, 3, 2, 1), ("sparse_mlp", 3, 1, 3, 2, 1),
                 ("douglas", 3, 2, 3, 2, 1), ("douglas", 2, 2, 2, 2, 2), ("douglas", 2, 1, 3, 2, 3)]
     for c in cfg:
         t.append(("contracts.infer_local", "task", c + (seed,), to, f"{c[0]}[n={c[1]},d={c[2]},K={c[3]},h={c[4]},cuts={c[5]}]"))
